@@ -110,6 +110,50 @@ theorem append_to_empty_has_no_delimiter (n v dl : Bytes) (env : Env)
   rw [apply_get]
   rcases h with h | h <;> simp [specApply, lookIns, ruleVar, rule1, h]
 
+/-- **M5 (`all` before the scope, compositionally).** Applying for a scope other than `all` is applying for `all` first and
+then applying the entries of that scope alone to the result — for every insert sequence, scope, starting environment and variable. -/
+theorem all_applies_before_scope (ins : List Ins) (qs : Scope) (hqs : qs ≠ .all) (env : Env) (n : Bytes) :
+    ((buildEnv ins).apply qs env).get n
+      = ((buildEnv (ins.filter (fun i => i.scope = qs))).apply qs ((buildEnv ins).apply .all env)).get n := by
+  rw [apply_get, apply_get]
+  have h0 := apply_get ins .all env n
+  have h1 : (fun b => lookIns (ins.filter (fun i => i.scope = qs)) .all b n) = fun _ => none := by
+    funext b; rw [lookIns_def]; apply look_nohit
+    intro i hi hh
+    have := (List.mem_filter.mp hi).2
+    simp only [decide_eq_true_eq] at this
+    exact hqs (this.symm.trans hh.1)
+  have h2 : ∀ b, lookIns (ins.filter (fun i => i.scope = qs)) qs b n = lookIns ins qs b n := by
+    intro b; rw [lookIns_def, lookIns_def]; apply look_filter; intro i hi; simp [hi]
+  cases qs with
+  | all => exact absurd rfl hqs
+  | build => simp only [specApply, h0, h1, h2, ruleVar_none]
+  | launch => simp only [specApply, h0, h1, h2, ruleVar_none]
+  | process p => simp only [specApply, h0, h1, h2, ruleVar_none]
+
+/-- **M6 (delimiter without an action).** A variable whose only entries are delimiters is returned unchanged, set or unset:
+a `.delim` entry alone never creates or changes a variable. -/
+theorem delimiter_alone_has_no_effect (ins : List Ins) (qs : Scope) (env : Env) (n : Bytes)
+    (h : ∀ i ∈ ins, i.name = n → i.beh = .delim) : ((buildEnv ins).apply qs env).get n = env.get n := by
+  rw [apply_get]
+  have hl : ∀ s b, b ≠ .delim → lookIns ins s b n = none := by
+    intro s b hb; rw [lookIns_def]; apply look_nohit
+    intro i hi hh
+    exact hb (hh.2.1.symm.trans (h i hi hh.2.2))
+  have hr : ∀ s prev, ruleVar (fun b => lookIns ins s b n) prev = prev := by
+    intro s prev
+    simp only [ruleVar, hl s .append (by decide), hl s .default (by decide), hl s .override (by decide),
+      hl s .prepend (by decide)]
+  cases qs <;> simp only [specApply, hr]
+
+/-- **M7 (override in the queried scope).** When the queried scope has an `override` entry for a variable and no `prepend`
+entry for it, the result is that value whatever the starting environment and the `all` entries say. -/
+theorem scope_override_replaces (ins : List Ins) (qs : Scope) (env : Env) (n v : Bytes)
+    (ho : lookIns ins qs .override n = some v) (hp : lookIns ins qs .prepend n = none) :
+    ((buildEnv ins).apply qs env).get n = some v := by
+  rw [apply_get]
+  cases qs <;> simp only [specApply, ruleVar, ho, hp, rule1]
+
 /-- Non-vacuity / sanity: every behaviour on one variable, `all` before `build`. -/
 example :
     ((buildEnv [⟨.all, .append, [65], [1]⟩, ⟨.all, .delim, [65], [58]⟩, ⟨.build, .prepend, [65], [2]⟩,
@@ -117,5 +161,10 @@ example :
       = some [2, 7, 58, 1] := by decide
 
 example : (([⟨.all, .append, [65], [1]⟩, ⟨.build, .prepend, [65], [2]⟩] : List Ins).map Ins.key).Nodup := by decide
+
+/-- Non-vacuity of M6/M7: a delimiter-only variable with a set value; a scope override over an `all` prepend. -/
+example : ((buildEnv [⟨.all, .delim, [65], [58]⟩, ⟨.build, .delim, [65], [59]⟩]).apply .build [([65], [7])]).get [65] = some [7] := by decide
+example : lookIns [⟨.all, .prepend, [65], [1]⟩, ⟨.build, .override, [65], [2]⟩] .build .override [65] = some [2]
+    ∧ lookIns [⟨.all, .prepend, [65], [1]⟩, ⟨.build, .override, [65], [2]⟩] .build .prepend [65] = none := by decide
 
 end CnbVerif.C04
